@@ -21,7 +21,12 @@ def main():
     mod = importlib.import_module(a.pid.lower())
     if a.replay:
         payload = C.unjson(json.load(open(a.replay)))
-        sys.exit(mod.replay(payload))
+        rc = mod.replay(payload)
+        if isinstance(rc, (list, tuple)):
+            for x in rc:
+                print("VIOLATION-REPLAY", str(x)[:700])
+            rc = 1 if rc else 0
+        sys.exit(rc)
     try:
         rc = mod.run(a.tier)
     except Exception:  # noqa
